@@ -20,6 +20,18 @@ P = EC + '::replication::poller::'
 def pairs_in(interp, v):
     """[(id, stamp)] of a vector of DocumentMetadata / (id, stamp) tuples"""
     v = interp.deref_all(v)
+    if v is not None and v[0] == 'adt' and v[1].startswith(EC) and not any((interp.deref_all(c.v) or ('',))[0] in ('key', 'ts') for c in v[3]):
+        # the list in a private shape (an enum Nothing / Single(entry) / Bulk(entries), a wrapper struct): the entries it holds, in order
+        out = []
+        for c in v[3]:
+            x = interp.deref_all(c.v)
+            if x is None:
+                continue
+            if x[0] == 'vec':
+                out += pairs_in(interp, x)
+            elif x[0] == 'adt' and x[1].startswith(EC):
+                out += pairs_in(interp, x) if not any((interp.deref_all(cc.v) or ('',))[0] in ('key', 'ts') for cc in x[3]) else pairs_in(interp, ('vec', [x]))
+        return out
     if v is None or v[0] != 'vec':
         raise Unmodelled('not a vector: %r' % (v[0] if v else None,))
     out = []
